@@ -9,7 +9,7 @@ Import ListNotations.
 Open Scope Z_scope.
 
 Section Wrap.
-Context {V : Type} (o : ops V) (L : laws o).
+Context {V : Type} (o : ops V) (L : laws o) (SC : sum_closed o).
 Notation dV := (null o).
 
 (* what the (unchecked) numba kernels need of a mask *)
@@ -51,10 +51,13 @@ Inductive kernel_value_reducer : rname -> Prop :=
 Definition kernel_merge (r : rname) : rname :=
   if name_has_count r || name_has_sum r then Rsum else r.
 
-Lemma kernel_merges r : kernel_value_reducer r ->
+(* the plain `sum` reducer is only used on dtypes that hold no nulls *)
+Definition sum_needs_no_nulls (r : rname) : Prop := r = Rsum -> forall x, is_null o x = false.
+
+Lemma kernel_merges r : kernel_value_reducer r -> sum_needs_no_nulls r ->
   merges (reducer_of o r) (reducer_of o (kernel_merge r)) (initial_value o r).
 Proof.
-  intros [] ; unfold kernel_merge, initial_value; simpl.
+  intros [] Hs; unfold kernel_merge, initial_value; simpl.
   - apply merges_sum; auto.
   - apply merges_nansum; auto.
   - apply merges_nansum_squares; auto.
@@ -109,7 +112,7 @@ Definition wf_arg (a : list Z * list V * mask) : Prop :=
 
 (* the multi-block path: per-block kernel calls, then the merge loop *)
 Lemma multi_path r ng (args : list (list Z * list V * mask)) :
-  kernel_value_reducer r -> args <> [] -> (forall a, In a args -> wf_arg a) ->
+  kernel_value_reducer r -> sum_needs_no_nulls r -> args <> [] -> (forall a, In a args -> wf_arg a) ->
   bind (mapM (fun a => apply_single_chunk o r (fst (fst a)) (snd (fst a)) ng (snd a)) args)
        (fun results =>
           let chunks := map fst results in
@@ -119,14 +122,14 @@ Lemma multi_path r ng (args : list (list Z * list V * mask)) :
           Ok (combine_factorized o merge_name chunks counts))
   = Ok (P o r ng (concat (map arg_rows args))).
 Proof.
-  intros Hr Hne Hwf.
+  intros Hr Hsn Hne Hwf.
   rewrite (mapM_ok _ (fun a => P o r ng (arg_rows a))).
   2:{ intros a Ha. destruct (Hwf a Ha) as [H1 [H2 H3]]. now apply apply_single_chunk_ok. }
   cbn [bind]. cbv zeta. rewrite (kernel_value_not_counting r Hr). cbn [orb].
   destruct args as [|a0 rest]; [congruence|].
   f_equal. rewrite <- (map_map arg_rows (P o r ng)).
   apply (combine_factorized_blocks o r _ ng (arg_rows a0) (map arg_rows rest)).
-  pose proof (kernel_merges r Hr) as Hm. unfold kernel_merge in Hm.
+  pose proof (kernel_merges r Hr Hsn) as Hm. unfold kernel_merge in Hm.
   rewrite (kernel_value_not_counting r Hr) in Hm. cbn [orb] in Hm. exact Hm.
 Qed.
 
@@ -251,11 +254,11 @@ Definition covered (chunks : list (list V)) (m : mask) : Prop :=
   match m with MBool _ => (length chunks <= 1)%nat | _ => True end.
 
 Theorem group_func_wrap_any_split r gk chunks ng m nt :
-  kernel_value_reducer r -> (0 < nt)%nat -> chunks <> [] ->
+  kernel_value_reducer r -> sum_needs_no_nulls r -> (0 < nt)%nat -> chunks <> [] ->
   length gk = length (concat chunks) -> wf_mask (length gk) m -> covered chunks m ->
   group_func_wrap o r gk chunks ng m nt = Ok (P o r ng (sel_rows o gk (concat chunks) m)).
 Proof.
-  intros Hr Hnt Hne Hl Hw Hcov. unfold group_func_wrap.
+  intros Hr Hsn Hnt Hne Hl Hw Hcov. unfold group_func_wrap.
   destruct m as [|b|a b|idx]; cbn [sel_rows].
   - (* no mask *)
     cbn iota beta. rewrite andb_false_r.
@@ -311,7 +314,7 @@ Qed.
 
 (* The statement the property is about: the answer does not depend on the split. *)
 Corollary group_func_wrap_split_independent r gk chunks chunks' ng m nt nt' :
-  kernel_value_reducer r -> (0 < nt)%nat -> (0 < nt')%nat -> chunks <> [] -> chunks' <> [] ->
+  kernel_value_reducer r -> sum_needs_no_nulls r -> (0 < nt)%nat -> (0 < nt')%nat -> chunks <> [] -> chunks' <> [] ->
   concat chunks = concat chunks' -> length gk = length (concat chunks) -> wf_mask (length gk) m ->
   covered chunks m -> covered chunks' m ->
   group_func_wrap o r gk chunks ng m nt = group_func_wrap o r gk chunks' ng m nt'.
